@@ -42,6 +42,16 @@ def cases(draw, ml):
             cfgb['mode'] = draw(st.sampled_from(['sorted', 'ins_global', 'ins_ns']))
     else:
         cfgb = draw(gen.configs(predicates=preds))
+    if draw(st.integers(0, 7)) == 0 and gen.contains_tag(p['a'], ('dd',)):
+        # stratum: a defaultdict factory that cannot be hashed => hash(spec) must raise, every time
+        for key in ('a', 'b'):
+            root, refs = gen._node_refs(copy.deepcopy(p[key]))
+            for c, i in refs:
+                if c[i][0] == 'dd':
+                    c[i][1] = 'unhashable'
+                    c[i][3] = [op for op in c[i][3] if op[0] != 'auto']
+            p[key] = root[0]
+        p['unhashable'] = True
     return dict(p, cfga=cfga, cfgb=cfgb, ra=draw(st.sampled_from(ROUTES)), rb=draw(st.sampled_from(ROUTES)))
 
 
@@ -131,6 +141,22 @@ class C06(runner.Prop):
             ctx.fail('ne_negation', f'A={A} B={B}')
         if not (A == A) or (A != A) or not (B == B):
             ctx.fail('reflexive', f'A={A}')
+        if case.get('unhashable'):
+            # hashing must fail (TypeError) on every attempt, never return a value
+            for S, msS in ((A, msa), (B, msb), (A, msa)):
+                expect_raise = any(n.kind == 'dd' and n.meta is U.UNHASHABLE_FACTORY for n in msS.walk())
+                for attempt in (1, 2):
+                    try:
+                        hv = hash(S)
+                        if expect_raise:
+                            ctx.fail('hash/unhashable_metadata_returned', f'attempt {attempt}: hash={hv} for {S}')
+                    except TypeError:
+                        if not expect_raise:
+                            ctx.fail('hash/raises', f'unexpected TypeError for {S}')
+                    except Exception as e:  # noqa: BLE001
+                        ctx.fail('hash/raises', f'{type(e).__name__}: {e}')
+            ctx.label('unhashable_factory')
+            return
         try:
             ha, hb = hash(A), hash(B)
         except Exception as e:  # noqa: BLE001
